@@ -18,7 +18,11 @@ RULE = ('sibling sequences over {E=li, X=other element, T=text, C=comment} (all 
         'longer ones), every (A,B) in a square around 0 plus ±len, ±(len±1), the four pseudo-classes, `of S` filters and '
         'keyword forms, plus XML sibling sequences whose `li` elements live in two namespaces queried with a default namespace declared (positions count every element sibling; the type of -of-type is (namespace, name)); each case is checked three ways: PY select vs the brute-force "exists n>=0" oracle (the '
         'property itself), PY vs the Lean matcher model on the same document, and the Lean Nth.matchOne on the abstract '
-        'walk vs the oracle. Non-trivial = at least one element of the sequence matches and at least one does not.')
+        'walk vs the oracle. Compound sweep: for every sibling sequence, selectors with 2-4 positional pseudo-classes in ONE compound '
+        '(terms over all four pseudo-classes, keyword forms, even/odd, `of S`, `:not(...)`-wrapped terms, optional type prefix; B also drawn from '
+        '[-(2*nodes+4), 2*nodes+4] so that terms start below 1 and above the last sibling in the same compound), also as selector lists and inside '
+        '`:is(..., ...)` followed by a further term; expected set = conjunction / union of the per-term oracle; redrawn up to 8 times towards a '
+        'non-empty expected answer; keyword equivalences are also evaluated with another positional term before or after. Non-trivial = at least one element of the sequence matches and at least one does not.')
 
 NAMES = [(':nth-child', False, False), (':nth-last-child', True, False),
          (':nth-of-type', False, True), (':nth-last-of-type', True, True)]
@@ -75,6 +79,124 @@ def oracle(els, e, a, b, last, of_type, of_s):
         return b == pos
     n, r = divmod(pos - b, a)
     return r == 0 and n >= 0
+
+
+# --- compounds of several positional pseudo-classes ---------------------------------------------------------------
+# keyword forms as the An+B instances the property names: (selector text, [(a, b, last, of_type), ...])
+KEYWORD_TERMS = [(':first-child', [(0, 1, False, False)]), (':last-child', [(0, 1, True, False)]),
+                 (':first-of-type', [(0, 1, False, True)]), (':last-of-type', [(0, 1, True, True)]),
+                 (':only-child', [(0, 1, False, False), (0, 1, True, False)]),
+                 (':only-of-type', [(0, 1, False, True), (0, 1, True, True)])]
+PREFIXES = [('', None), ('', None), ('*', None), ('li', 'li'), ('x', 'x')]
+
+
+def gen_term(r, n_nodes, n_els, span, nsmode):
+    """One positional simple selector: (text, [(a, b, last, of_type, of_s)...], negated).  B is drawn from the small
+    square, from the boundary values of the sibling list, or from a range reaching well past the number of child nodes
+    on both sides, so that in a compound the terms can start below 1 and above the last sibling at the same time."""
+    u = r.random()
+    if u < 0.12:
+        text, parts = r.choice(KEYWORD_TERMS)
+        return text, [p + (False,) for p in parts], False
+    name, last, of_type = r.choice(NAMES)
+    if u < 0.22:
+        word, a, b = r.choice([('even', 2, 0), ('odd', 2, 1), ('EVEN', 2, 0), ('Odd', 2, 1)])
+        return f'{name}({word})', [(a, b, last, of_type, False)], False
+    a = r.choice([-1, 1, -1, 1, -2, 2, 3, -3, 0]) if r.random() < 0.7 else r.randint(-span, span)
+    v = r.random()
+    wide = 2 * n_nodes + 4
+    if v < 0.3:
+        b = r.randint(-span, span)
+    elif v < 0.5:
+        b = r.choice([0, 1, -1, n_nodes, -n_nodes, n_nodes + 1, n_nodes - 1, n_els, n_els + 1, -n_els])
+    else:
+        b = r.randint(-wide, wide)
+    of_s = (not of_type) and r.random() < 0.15
+    text = f'{name}({anb_text(a, b, r)}{(" of *|*.s" if nsmode else " of .s") if of_s else ""})'
+    neg = r.random() < 0.12
+    if neg:
+        text = f':not({text})'
+    return text, [(a, b, last, of_type, of_s)], neg
+
+
+def gen_compound(r, n_nodes, n_els, span, nsmode):
+    """prefix + 2..4 positional terms.  Returns (text, predicate(els, e))."""
+    k = r.choice([2, 2, 2, 3, 3, 4])
+    terms = [gen_term(r, n_nodes, n_els, span, nsmode) for _ in range(k)]
+    prefix, want_name = ('*|*', None) if nsmode else r.choice(PREFIXES)
+    text = prefix + ''.join(t[0] for t in terms)
+
+    def pred(els, e):
+        if want_name is not None and e.name != want_name:
+            return False
+        for _, parts, neg in terms:
+            ok = all(oracle(els, e, a, b, last, of_type, of_s) for a, b, last, of_type, of_s in parts)
+            if ok == neg:
+                return False
+        return True
+    # does the compound hold terms that start on both sides of the sibling positions 1..n_els?
+    plain = [p for _, parts, neg in terms for p in parts if p[0] != 0]
+    both = any(p[1] < 1 for p in plain) and any(p[1] > n_els for p in plain)
+    return text, pred, both, k
+
+
+def compound_sweep(chk, rng, seqs, span, quick, py_bad, doc_cases):
+    """Selectors that put several positional pseudo-classes in ONE compound (`li:nth-child(-n+10):nth-child(even)`,
+    `:nth-last-child(-n+20):nth-child(3n-3):last-of-type`, with `:not(...)`-wrapped terms, keyword terms, `of S`,
+    type prefixes) and selector lists / `:is()` of such compounds: an element is selected iff it satisfies every term
+    (some compound of the list).  Each term is decided by the same brute-force `exists n >= 0` oracle."""
+    evaluations = nontrivial = both_sides = lists = 0
+    per_seq = 6 if quick else 12
+    for kinds in seqs:
+        nsmode = kinds[0] == 'NS'
+        if nsmode:
+            kinds = kinds[1:]
+        top_level = rng.random() < 0.05
+        soup, holder = build(kinds, top_level, nsmode=nsmode)
+        els = [c for c in holder.contents if isinstance(c, bs4.Tag)]
+        if not els:
+            continue
+        def draw():
+            text, pred, both, _k = gen_compound(rng, len(kinds), len(els), span, nsmode)
+            form = rng.random()
+            if form < 0.12:          # selector list: union
+                text2, pred2, both2, _ = gen_compound(rng, len(kinds), len(els), span, nsmode)
+                sel = text + rng.choice([',', ', ', ' , ']) + text2
+                return sel, [e for e in els if pred(els, e) or pred2(els, e)], both or both2, 1
+            if form < 0.2:           # :is(list) followed by another positional term, all in one compound
+                text2, pred2, both2, _ = gen_compound(rng, len(kinds), len(els), span, nsmode)
+                t3 = gen_term(rng, len(kinds), len(els), span, nsmode)
+                sel = ('*|*' if nsmode else '') + f':is({text}, {text2})' + t3[0]
+                return sel, [e for e in els if (pred(els, e) or pred2(els, e))
+                             and (all(oracle(els, e, *p) for p in t3[1]) != t3[2])], both or both2, 1
+            return text, [e for e in els if pred(els, e)], both, 0
+
+        for _ in range(per_seq):
+            # most random conjunctions select nothing; redraw a few times so that the bulk of the cases expects a
+            # non-empty answer (an implementation that wrongly rejects everything is invisible on the empty ones)
+            keep_empty = rng.random() < 0.15
+            for _try in range(8):
+                sel, exp, both, is_list = draw()
+                if exp or keep_empty:
+                    break
+            lists += is_list
+            got = sv.select(sel, holder, namespaces=NSMAP if nsmode else None)
+            evaluations += 1
+            both_sides += both
+            if 0 < len(exp) < len(els):
+                nontrivial += 1
+            if {id(e) for e in exp} != {id(e) for e in got} or len(got) != len(exp):
+                py_bad.append({'kinds': ''.join(kinds), 'selector': sel, 'top_level': top_level, 'nsmode': nsmode,
+                               'py': [enc.path_of(e) for e in got], 'expected': [enc.path_of(e) for e in exp],
+                               'compound': True})
+            if rng.random() < (0.05 if quick else 0.01):
+                doc_cases.append({'markup': None, 'kinds': ''.join(kinds), 'top_level': top_level, 'selector': sel,
+                                  'nsmode': nsmode, 'ns': NSMAP if nsmode else None,
+                                  'queries': [('select', enc.path_of(holder), 0)]})
+    chk.coverage.update({'compound_selectors': evaluations, 'compound_nontrivial': nontrivial,
+                         'compound_terms_start_on_both_sides_of_sibling_range': both_sides,
+                         'compound_lists_or_is': lists})
+    return evaluations, nontrivial
 
 
 def run(chk):
@@ -143,6 +265,10 @@ def run(chk):
                 doc_cases.append({'markup': None, 'kinds': ''.join(kinds), 'top_level': top_level, 'selector': sel, 'nsmode': nsmode,
                                   'ns': NSMAP if nsmode else None,
                                   'queries': [('select', enc.path_of(holder), 0)]})
+    # several positional pseudo-classes in one compound selector
+    ev2, nt2 = compound_sweep(chk, rng, seqs, span, quick, py_bad, doc_cases)
+    evaluations += ev2
+    nontrivial += nt2
     # keyword forms coincide with An+B instances
     kw = [(':first-child', ':nth-child(1)'), (':last-child', ':nth-last-child(1)'), (':first-of-type', ':nth-of-type(1)'),
           (':last-of-type', ':nth-last-of-type(1)'), (':only-child', ':nth-child(1):nth-last-child(1)'),
@@ -153,8 +279,13 @@ def run(chk):
     for kinds in seqs[:200] + [q for q in seqs if q[0] == 'NS'][:80]:
         nsmode = kinds[0] == 'NS'
         soup, holder = build(kinds[1:] if nsmode else kinds, nsmode=nsmode)
+        n_k = len(kinds) - (1 if nsmode else 0)
+        # the equivalence must also hold when another positional pseudo-class precedes / follows in the same compound
+        other = gen_term(rng, n_k, n_k, span, nsmode)[0] if rng.random() < 0.5 else ''
+        before = rng.random() < 0.5
         for k1, k2 in kw:
             evaluations += 1
+            k1, k2 = (other + k1, other + k2) if before else (k1 + other, k2 + other)
             if nsmode:
                 k1, k2 = '*|*' + k1, '*|*' + k2
             r1 = [id(e) for e in sv.select(k1, holder, NSMAP if nsmode else None)]
